@@ -401,6 +401,21 @@ pub fn generate(tier: Tier, rng: &mut Rng) -> Vec<Case> {
             push_case(&mut out, &spec, format!("{l}.{body}"), None, vec!["equal-neighbours-of-different-kinds"]);
         }
     }
+    // map ranges whose keys include an int and the uint denoting the same number (distinct keys:
+    // every one of them is visited), and map ranges whose bodies fail on a reached key
+    for m in ["{1: 'a', 1u: 'b'}", "{0: 1, 0u: 2, 'k': 3}", "{2u: 0, 2: 0}", "{1: 0, 1u: 0, 2: 0, 2u: 0}", "{true: 1, 1: 1, 1u: 1, '1': 1}"] {
+        for body in ["map(k, k)", "map(k, [k])", "filter(k, k == 1)", "exists_one(k, k == 1)", "exists_one(k, k == 2)", "all(k, t(k) != null)", "map(k, t(k)).size()", "exists(k, k == 3u && t(k) == 1u)", "map(k, k == 1, k)", "all(k, k != 1u)"] {
+            push_case(&mut out, &spec, format!("{m}.{body}"), None, vec!["twin-keys-in-range", "unordered"]);
+        }
+    }
+    for (m, bodies) in [("{3: 0}", ["all(k, 10 / {M}[k] > 0)", "exists(k, 10 / {M}[k] > 0)", "exists_one(k, 10 / {M}[k] > 0)", "map(k, 10 / {M}[k])", "filter(k, 10 / {M}[k] > 0)", "map(k, 10 / {M}[k] > 0, k)", "map(k, k > 0, 10 / {M}[k])", "all(k, nope(k))"]),
+                        ("{'a': 0}", ["all(k, 10 / {M}[k] > 0)", "exists(k, 10 / {M}[k] > 0)", "exists_one(k, 10 / {M}[k] > 0)", "map(k, 10 / {M}[k])", "filter(k, 10 / {M}[k] > 0)", "map(k, 10 / {M}[k] > 0, k)", "map(k, k != '', 10 / {M}[k])", "all(k, nope(k))"])] {
+        for b in bodies {
+            let body = b.replace("{M}", m);
+            push_case(&mut out, &spec, format!("{m}.{body}"), None, vec!["failing-body-over-map"]);
+            push_case(&mut out, &spec, format!("[1, 2].map(x, {m}.{body})"), None, vec!["failing-body-over-map"]);
+        }
+    }
     // exists_one over ranges with several matches followed by further elements, some of which fail
     // or are logged: every element is visited, whatever the count so far
     for l in ["[1, 2, 3, 4, 0, 5]", "[2, 2, 2, 0]", "[5, 6, 7, 8, 9]", "[0, 3, 3, 0, 3]", "{1: 0, 2: 0, 3: 0}", "[1, 2, 3, 4, 5, 6, 7, 8]"] {
